@@ -120,6 +120,16 @@ class Oracle:
                         parts.append(("inject", "@ask"))
                 except Exception:  # noqa: BLE001
                     pass
+        if isinstance(p, B.CondExpr):
+            # Dippy re-reads the whole text of a [[ ]] operand (bash evaluates -v 'a[$(cmd)]' and arithmetic operands even
+            # when quoted), so a $(…) spelled inside single quotes there is a part too
+            import re
+
+            for wd in p.words():
+                for sg in wd.segs:
+                    if sg.kind == "sq":
+                        for inner in re.findall(r"\$\(([^()]*)\)", sg.text):
+                            parts.append(("quoted-text", inner))
         for c in p.children():
             parts.append(("child", self.text(c)))
         for pos, sp in p.subprograms():
